@@ -347,6 +347,11 @@ func (e *Env) field(base *Term, name string) *Term {
 	}
 	for i := 0; i < st.NumFields(); i++ {
 		if st.Field(i).Name() == name {
+			if _, nested := st.Field(i).Type().Underlying().(*types.Struct); nested {
+				// address of a nested struct value: same encoding as the engine's FieldAddr
+				n := e.g.autoFun("sub_"+typeShort(ty)+"_"+name, SInt, SInt)
+				return e.g.withType(App(n, SInt, base), types.NewPointer(st.Field(i).Type()))
+			}
 			comp := e.g.fieldComp(ty, i)
 			t := Select(e.st.Get(e.g, comp), base)
 			return e.g.withType(t, st.Field(i).Type())
